@@ -24,6 +24,8 @@ def families(tier):
 
     def add(name, topo, uq, ut, **kw):
         u = uq if q else ut
+        if kw.pop("offsets_off", False):
+            topo = dict(topo, offsets=False)
         if u:
             fams.append(sched.run_family("C01", name, topo, u, **kw))
 
@@ -35,6 +37,10 @@ def families(tier):
     add("ab_dfix", D["ab_dfix"], 4, 6)
     add("ab_dpull", D["ab_dpull"], 4, 6)
     add("ab_dpush", D["ab_dpush"], 0, 6)
+    add("ab_linear_dfix", D["ab_linear_dfix"], 4, 5)
+    add("ab_next_scale_dfix", D["ab_next_scale_dfix"], 0, 5)
+    add("ab_dfix_linear", topos.DELAY_BEFORE_PUSH["ab_dfix_linear"], 3, 4, offsets_off=True)
+    add("ab_dpull_next", topos.DELAY_BEFORE_PUSH["ab_dpull_next"], 0, 4, offsets_off=True)
     add("ab_vary", D["ab_vary"], 4, 6)
     add("a_p_b", D["a_p_b"], 4, 6)
     add("a_p_b_rev", D["a_p_b_rev"], 0, 6)
@@ -53,4 +59,25 @@ def families(tier):
     add("ring2_pull", R["ring2_pull"], 0, 4, delay_sum_ge_steps=True)
     add("ring3_dfix", R["ring3_dfix"], 0, 4, delay_sum_ge_steps=True)
     add("ring2_dpush", topos.RINGS_PUSH["ring2_dpush"], 0, 5)
+    # one scheduling step from an arbitrary state (no bound on the length of the run so far)
+    for name, topo in {**D, **({} if q else topos.BIG)}.items():
+        if name in ("ba_listed", "cba_listed", "a_p_b_rev"):
+            continue
+        fams.append(sched.step_family("C01", name, topo))
+    for name, topo in {**R, **({"ring3_chord_ok": topos.BIG_RINGS["ring3_chord_ok"]} if q else topos.BIG_RINGS)}.items():
+        if name == "ring2_dfix_listed_ba":
+            continue
+        fams.append(sched.step_family("C01", name, topo, delay_sum_ge_steps=True))
+    fams.append(sched.step_family("C01", "ring2_dpush", topos.RINGS_PUSH["ring2_dpush"]))
+    # adapter chains in every ordering: all pairs (quick: a subset), and triples in the thorough tier
+    kinds = ["scale", "linear", "next", "avg", "dfix", "dpull2", "dpush"]
+    import itertools
+    chains = [list(c) for c in itertools.product(kinds, repeat=2)]
+    if q:
+        chains = [c for c in chains if "dfix" in c or "dpull2" in c][::2]
+    else:
+        chains += [list(c) for c in itertools.product(["scale", "linear", "dfix", "dpull2", "dpush"], repeat=3)]
+    for c in chains:
+        name = "chain_" + "+".join(c)
+        fams.append(sched.step_family("C01", name, topos.T(["A", "B"], [("A", "B", c)])))
     return fams
